@@ -2,7 +2,7 @@
    and the in-Coq cross-check (cases.v, vm_compute) both call. *)
 From Coq Require Import List NArith ZArith Bool.
 Import ListNotations.
-From RV Require Import Base.Str Base.PathLex Path.Clean Path.CleanSpec Path.Relative Path.Helpers Path.HelpersFacts Core.Iter File.MemFile Path.Expand Path.Abs Xdg.Dirs.
+From RV Require Import Base.Str Base.PathLex Path.Clean Path.CleanSpec Path.Relative Path.Helpers Path.HelpersFacts Core.Iter File.MemFile Path.Expand Path.Abs Xdg.Dirs Chmod.Sym.
 
 Definition api_components := components.
 Definition api_push := push.
@@ -115,3 +115,8 @@ Definition mem_str (x : list N) (l : list (list N)) : bool := existsb (str_eqb x
 Definition api_vfs_config_dir (e : list (list N * list N)) (name : list N) (files : list (list N)) : option (list N) :=
   let env := env_lookup e in
   vfs_config_dir env (fun p => match Abs.abs [slash] env p with inl a => mem_str a files | inr _ => false end) name.
+
+(* ---- C11 (expression level) ---- *)
+Definition api_sym_mode (dir file link : bool) (mode octal : N) (sym : list N) :=
+  sym_mode {| k_dir := dir; k_file := file; k_link := link |} mode octal sym.
+Definition api_revoking_mode := revoking_mode.
